@@ -81,6 +81,18 @@ CLAIMS = {
    note="The request/unlock handlers are inline in a spawned task (multi-state coroutine over mpsc::Receiver) and are outside; exclusivity and liveness across messages "
         "and disconnection cleanup in peer_inbound_service are not claimed. The handlers' two call patterns are re-stated in the driver (driver code).",
    design='DESIGN.md §3 C20'),
+ 'C06': dict(
+   level='model_checking',
+   text="The digest code of every signed kind (Node::hash, Edge::hash, the tombstones' sign / verify) and the raw signing arm of process_message (first poll segment of "
+        "the coroutine) are executed from MIR with blake3 as a recorder, on rows whose fixed fields are fully symbolic and whose variable fields are symbolic byte "
+        "sequences (z3 Seq theory, <= 20/40 bytes). With blake3 and Ed25519 ideal, 'a signature valid for row a is valid for row b' is the z3 query stream(a) = stream(b): "
+        "decided per single differing element (must be unsat: a dropped field is caught), per pair of kinds (same kind: variable-extent boundaries; cross kind: domain "
+        "separation), for sign-vs-verify stream equality of tombstones, and for the signing oracle. Every sat answer is replayed natively: a real Ed25519 signature made for "
+        "row a is transplanted onto row b and checked with the real verify() of b's kind.",
+   note="On the unchanged tree 12 collision classes are genuine and recorded in KNOWN_FINDINGS.json (format change, not a small repair): each is printed as KNOWN-FINDING, "
+        "and the query is asked again with the recorded class excluded, so a new class (e.g. a field dropped from a digest) is still a VIOLATION. Ideal-crypto assumptions and "
+        "the printable-ASCII restriction of witness text fields are listed in the evidence.",
+   design='DESIGN.md §3 C06'),
 }
 
 NA = {
